@@ -136,6 +136,8 @@ def load_known_findings():
         return json.load(f).get('findings', [])
 
 def main(argv=None):
+    import logging
+    logging.disable(logging.CRITICAL)       # the library logs handled exceptions of replayed inputs; they are not part of the verdict
     ap = argparse.ArgumentParser()
     ap.add_argument('prop')
     ap.add_argument('--tier', default=os.environ.get('VERIF_TIER', 'quick'), choices=['quick', 'thorough'])
